@@ -653,8 +653,13 @@ def exec_fockcount(script, w, feats):
             return
         # through the optimiser, operations on other modes may legally move across the measurement; on a truncated Fock space the measurement
         # renormalises what the (non-unitary, truncated) gates before it have lost, so the two orders differ by the truncation loss (seen: 1.8e-5
-        # for Sgate(0.2) at cutoff 5) - the allowance covers that, a value used from the wrong outcome is far outside it
-        d = obs_diff(state_obs(rt.state), state_obs(rs.state), 1e-7 if not script["how"].get("optimize") else 5e-4)
+        # for Sgate(0.2) on vacuum at cutoff 5, 7e-3 on |2>)
+        ot_, os_ = state_obs(rt.state), state_obs(rs.state)
+        if script["how"].get("optimize"):
+            # ... so the two states are proportional; compare them normalised
+            ot_["dm"] = ot_["dm"] / float(np.real(rt.state.trace()))
+            os_["dm"] = os_["dm"] / float(np.real(rs.state.trace()))
+        d = obs_diff(ot_, os_, 1e-7 if not script["how"].get("optimize") else 1e-6)
         if d:
             w.violation("substitution", "final-state symbolic vs numeric twin", {"diff": d, "counts": drawn, "measured_order": [o["m"] for o in sp["ops"] if o["op"] == "MeasureFock"][0]},
                         feats + ["fock-count"])
